@@ -157,6 +157,25 @@ void fromf(Rng& rng)
             nb(F((F(a) + o) * unit));
             nb(F((F(a) - o) * unit));
         }
+    // the repaired boundary, densely: the declared limits +-(2^D - 1), the powers of two they round to
+    // when the format holds fewer than D digits, fractions around them, and +-1, +-2 ulp of each
+    {
+        F inf = std::numeric_limits<F>::infinity();
+        auto nb2 = [&](F x) {
+            nb(x);
+            vhf::push_f(fv, std::nextafter(std::nextafter(x, inf), inf));
+            vhf::push_f(fv, std::nextafter(std::nextafter(x, -inf), -inf));
+        };
+        for (int k : {D - 1, D, D + 1})
+            for (F sg : {F(1), F(-1)}) {
+                F p = sg * std::ldexp(F(1), k);
+                nb2(F(p * unit));
+                for (F o : {F(0.25), F(0.5), F(0.75), F(1), F(1.25), F(1.5), F(1.75), F(2), F(3)}) {
+                    nb2(F(F(p - sg * o) * unit));
+                    nb2(F(F(p + sg * o) * unit));
+                }
+            }
+    }
     for (F f : fv) {
         printf("C11 fcvt %s %s %d %d %s ", TagN<R>::name().c_str(), TagN<O>::name().c_str(), D, E, vhf::FN<F>::name);
         vhf::prf(f);
